@@ -891,11 +891,11 @@ class Interp:
                 while self.ctx.branch(z3.Length(it.e) > i):
                     if i >= 64:
                         raise Unsupported('iteration over a sequence of unknown length needs a loop invariant')
-                    yield it.ek.wrap(z3.simplify(it.e[i]))
+                    yield it.ek.wrap(it.e[i])
                     i += 1
                 return
             for i in range(n):
-                yield it.ek.wrap(z3.simplify(it.e[i]))
+                yield it.ek.wrap(it.e[i])
             return
         if isinstance(it, TrackList):
             i = 0
